@@ -50,6 +50,13 @@ CHECKS.update({
         text="Seeded search over schedules, fault plans and user operations with 3-6 complete litep2p nodes running the real Kademlia protocol (event loop, QueryEngine, routing table, store, executor) over the real transport stack on a simulated network and clock, bootstrapped into a line, star or clique, plus ghost peers whose address refuses, black-holes, cannot be dialed by any enabled transport, or is missing. Oracle: ledger keyed by query id - exactly one terminal event per issued query by the horizon, of the kind matching the operation; partial results only before it and only for get_record; no unknown ids; PutRecordSuccess/AddProviderSuccess only if enough distinct nodes really received the record/provider (exact required count for put_record_to_peers, at least one for the closest-peers variants), asserted in runs without connection-killing faults.", ref="DESIGN.md §5 C16"),
 })
 
+CHECKS.update({
+    "C01": dict(engine="bytepipe", category="fault_enumeration", technique="deterministic simulation of the handshake with an active man in the middle and a rogue peer: systematic fault enumeration over every handshake byte + seeded schedules/fragmentation",
+        text="The real noise::handshake runs on both ends of a simulated carrier under the seeded scheduler. Fault enumeration: every byte offset of both handshake directions x {bit flips, overwrite, truncation} is injected by a man in the middle; a rogue peer written directly against snow completes a valid Noise XX session with every forged identity payload of a catalogue (missing key/signature, signature by another identity, signature bound to another static key, missing domain prefix, wrong lengths, unknown key type, ...) in both roles; seeded runs add key pairs, fragmentation down to single bytes, short writes, Pending and schedules. Oracle: a secured connection for peer P is reported only if nothing was altered in flight and the payload is a valid proof for P over this session's static key; every altered or forged case ends in an error within the time-out, never a hang or panic. The dialed-peer comparison is exercised end-to-end by C05's wrong_peer address shape.", ref="DESIGN.md §5 C01"),
+    "C02": dict(engine="bytepipe", technique="deterministic simulation: real Noise sockets over a simulated carrier with seeded fragmentation/back-pressure and a frame-level attacker; byte-FIFO reference model",
+        text="Two endpoints perform the real Noise handshake over a simulated carrier and then exchange byte streams in both directions through the real NoiseSocket (split into reader and writer tasks under the seeded scheduler). Write sizes cover 1 byte to several maximum frames incl. 65519/65520/65521, reader buffers 1 byte to 400 kB, read-ahead 1-5 and write-buffer 1-3, carrier chunking down to one byte, short writes, Pending and a bounded window. Reference model: a byte FIFO (position-indexed pseudo-random stream). Honest runs: bytes read = bytes written, no error, no stall. Attacker runs (one ciphertext frame flipped, truncated, replayed, dropped or swapped): no byte that differs from the honest stream is ever delivered and nothing from the attacked frame on is delivered.", ref="DESIGN.md §5 C02"),
+})
+
 NOT_BUILT = {
 }
 
